@@ -41,7 +41,7 @@ def line(c, with_mode=None):
 
 
 def make_ca(c):
-    a = np.array(c["hist"], dtype=np.int64)
+    a = np.array(c["hist"], dtype=object if c["dtype"] == "uint64" else np.int64)
     if c.get("scale", 1) != 1:
         a = (a.astype(np.float64) / c["scale"]).astype(c["dtype"])
     else:
@@ -70,7 +70,8 @@ def with_layout(a, layout):
 
 
 def scaled_rows(arr, c):
-    return np.rint(np.asarray(arr, dtype=np.float64) * c.get("scale", 1)).astype(np.int64).tolist()
+    from .dsl import exact_rows
+    return exact_rows(arr, c.get("scale", 1))
 
 
 def calls_str(log):
@@ -84,22 +85,56 @@ class Run:
     pass
 
 
+def shaped(fn, form, nargs=3):
+    """The same callable in another shape (what users actually pass): the library must treat them alike."""
+    import functools
+    if not form or form == "obj":
+        return fn
+    if form == "lambda":
+        return (lambda n, c, t: fn(n, c, t)) if nargs == 3 else (lambda a, t: fn(a, t))
+    if form == "defaults":          # all but the first parameter have defaults: still a 3- (2-) argument callable
+        if nargs == 3:
+            def with_defaults(n, c=0, t=0):
+                return fn(n, c, t)
+        else:
+            def with_defaults(a, t=1):
+                return fn(a, t)
+        return with_defaults
+    if form == "partial":
+        return functools.partial(lambda tag, *a: fn(*a), "tag")
+    if form == "star":
+        return lambda *a: fn(*a)
+    if form == "method":
+        return fn.__call__
+    return fn
+
+
+def np_scalar(x, form):
+    """An integer parameter as a NumPy scalar (taken from an array, a config table, ...)."""
+    if form == "np64":
+        return np.int64(x)
+    if form == "np32":
+        return np.int32(x)
+    return x
+
+
 def run_impl(c, memo=None):
     import cellpylib as cpl
     ca = make_ca(c)
     snapshot = ca.tobytes()
-    rule = Rule(c["rule"], c.get("scale", 1), clobber=bool(c.get("clobber")))
+    rule = Rule(c["rule"], c.get("scale", 1), clobber=bool(c.get("clobber")), mixret=bool(c.get("mixret")))
     pred = None
     if "T" in c:
         ts = c["T"]
     else:
         pred = Pred(c["pred"], c.get("scale", 1))
-        ts = pred
+        ts = shaped(pred, c.get("callform"), 2)
     out = Run()
     out.rule, out.pred, out.ca = rule, pred, ca
     out.exc = None
     try:
-        out.res = cpl.evolve(ca, timesteps=ts, apply_rule=rule, r=c["r"],
+        out.res = cpl.evolve(ca, timesteps=np_scalar(ts, c.get("npform")) if "T" in c else ts,
+                             apply_rule=shaped(rule, c.get("callform")), r=np_scalar(c["r"], c.get("npform")),
                              memoize=memo_value(memo if memo is not None else c["memo"]))
     except Exception as e:  # noqa
         out.exc = e
@@ -139,7 +174,7 @@ def ref_evolve(c, steps=None):
         nxt = []
         for cell in range(N):
             n = [cur[(cell - r + j) % N] for j in range(2 * r + 1)]
-            rule(np.array(n), cell, t)
+            rule(np.array(n, dtype=object if any(abs(x) >= 2 ** 53 for x in n) else None), cell, t)
             nxt.append(int(rule.stored()))
         rows.append(nxt)
         cur = nxt
